@@ -129,14 +129,18 @@ def runUserReq (o : Oracle) (fuel : Nat) : List Flow → List Event × Option (S
         let (t, sc, e) := runUserReq o fuel fs
         (r.trace ++ t, sc, e)
 
+/-- `shortCircuit != nil && shortCircuit.flow.GetName() == userFlow.GetName()` ⇒ start from the
+    short-circuit node -/
+def startFor (sc : Option (String × String)) (f : Flow) : Option String :=
+  match sc with
+  | some (fl, k) => if fl == f.name then some k else none
+  | none => none
+
 /-- The user-flow loop of `executeRes` over the (already reversed) list. -/
 def runUserRes (o : Oracle) (fuel : Nat) (sc : Option (String × String)) : List Flow → WalkRes
   | [] => {}
   | f :: fs =>
-    let sf := match sc with
-      | some (fl, k) => if fl == f.name then some k else none
-      | none => none
-    let r := executeFlow f o .res fuel sf
+    let r := executeFlow f o .res fuel (startFor sc f)
     if r.err.isSome then { r with sc := none }
     else
       let rest := runUserRes o fuel sc fs
